@@ -17,18 +17,28 @@ import protolib as P
 LEVEL = "proof"
 
 
+def mixed_api(sp, apis):
+    sp["apis"] = apis
+    return sp
+
+
 def recordings(tier):
     rs = [P.spec([[0, 150], [150, 130]], name="gapped-100-per-file-150+130"),
           P.spec([[0, 300000], [300000, 260000]], srn=200000, continuous=1, name="continuous-200k-per-file"),
-          # three calls, one file each: a later call could succeed after an earlier one failed (stickiness)
-          P.spec([[0, 100], [100, 100], [200, 100]], name="gapped-3-calls-1-file-each")]
+          # four calls, one file each, alternately through rf_write and rf_write_blocks (the two C entry
+          # points each carry their own has_failure guard): a later call could succeed after an earlier one
+          # failed (stickiness)
+          mixed_api(P.spec([[0, 100], [100, 100], [200, 100], [300, 100]], name="gapped-4-calls-write-blocks-alternating"),
+                    ["write", "blocks", "write", "blocks"])]
     if tier == "thorough":
         rs += [P.spec([[30, 100], [250, 10], [260, 350]], name="gapped-midfile-start-and-gap"),
                P.spec([[0, 64], [64, 64], [128, 64]], srn=64, subdir_cadence=1, nsub=2, dtype="f4",
                       name="f4-2-subchannels-1-file-per-subdir"),
                P.spec([[0, 1000], [1000, 2500]], srn=1000, srd=3, file_cadence_ms=400, subdir_cadence=2,
                       compression=1, checksum=1, name="rational-rate-400ms-compressed"),
-               P.spec([[0, 120000], [120000, 120000], [240000, 120000]], srn=100000, name="gapped-100k-per-file-chunked")]
+               P.spec([[0, 120000], [120000, 120000], [240000, 120000]], srn=100000, name="gapped-100k-per-file-chunked"),
+               mixed_api(P.spec([[0, 150], [150, 130], [280, 90]], name="gapped-blocks-only-150+130+90"),
+                         ["blocks", "blocks", "blocks"])]
     return rs
 
 
@@ -216,7 +226,7 @@ def one_recording(res, sp):
     if b.ops is None or b.vp is None:
         return
     points = [(b, n, e, p) for n in range(1, b.n + 1) for e in (P.ENOSPC, P.EIO) for p in (0, 1)]
-    budget = 90 if sp["name"] == "gapped-3-calls-1-file-each" else 170
+    budget = 110 if sp.get("apis") else 170
     if res.tier == "quick" and len(points) > budget:
         # every operation once with ENOSPC, the other combinations sampled
         keep = [x for x in points if x[2] == P.ENOSPC and x[3] == 0]
@@ -262,7 +272,7 @@ def run(res):
                 "run on the real writer under the interposer; all distinct, all non-trivial; compared with the model's "
                 "prediction under both close-path variants and with the property's oracle (bad final file, earlier files "
                 "intact, silent loss, stickiness); quick: every operation of 3 recordings with ENOSPC once, the other "
-                "errno/persistence combinations sampled (170/170/90 runs); thorough: all combinations, 7 recordings")
+                "errno/persistence combinations sampled (170/170/110 runs; the third recording alternates rf_write and rf_write_blocks); thorough: all combinations, 8 recordings")
     for sp in recordings(res.tier):
         one_recording(res, sp)
     res.assumptions += [
